@@ -217,23 +217,33 @@ func runGbOnce(c *GbCase, pk []wirePkt) ([]observed, *pbt.Violation) {
 			}
 			total += uint64(len(raw))
 		}
-		for _, p := range pk {
+		// barrier: a stale duplicate of the first packet is sent; lal counts a packet before it parses it and parses
+		// in the reading goroutine, so once the duplicate has been counted everything before it has been processed
+		// completely (the duplicate itself is discarded by the reorder list)
+		barrier := func() {
+			send(pk[0].raw)
+			deadline := time.Now().Add(20 * time.Second)
+			for {
+				st := s.SM.StatGroup(streamName)
+				if st != nil && st.StatPub.ReadBytesSum >= total {
+					return
+				}
+				if time.Now().After(deadline) {
+					lalclient.Harness("c07: gb28181 tcp session consumed %v of %d bytes within 20 s", st, total)
+				}
+				time.Sleep(200 * time.Microsecond)
+			}
+		}
+		for i, p := range pk {
 			send(p.raw)
-		}
-		// a stale duplicate as the last packet: lal counts a packet before it parses it, and parses in the reading
-		// goroutine, so once the duplicate has been counted everything before it has been processed completely
-		send(pk[0].raw)
-		deadline := time.Now().Add(20 * time.Second)
-		for {
-			st := s.SM.StatGroup(streamName)
-			if st != nil && st.StatPub.ReadBytesSum >= total {
-				break
+			if i%syncEvery == syncEvery-1 {
+				barrier()
+				if v := x.sync(); v != nil {
+					return nil, v
+				}
 			}
-			if time.Now().After(deadline) {
-				lalclient.Harness("c07: gb28181 tcp session consumed %v of %d bytes within 20 s", st, total)
-			}
-			time.Sleep(200 * time.Microsecond)
 		}
+		barrier()
 		return x.finish()
 	}
 	g := s.SM.GetGroup("", streamName)
@@ -241,10 +251,15 @@ func runGbOnce(c *GbCase, pk []wirePkt) ([]observed, *pbt.Violation) {
 		lalclient.Harness("c07: no group after CtrlStartRtpPub")
 	}
 	up := gb28181.NewPsUnpacker().WithOnAvPacket(g.OnAvPacketFromPsPubSession)
-	for _, p := range pk {
+	for i, p := range pk {
 		raw := p.raw
 		if s.Call("gb28181", func() { _ = up.FeedRtpPacket(raw) }) {
 			return nil, s.PanicViolation()
+		}
+		if i%syncEvery == syncEvery-1 {
+			if v := x.sync(); v != nil {
+				return nil, v
+			}
 		}
 	}
 	return x.finish()
@@ -413,9 +428,9 @@ func classifyGb(c GbCase) (bool, []string) {
 		l = append(l, "seq-wrap")
 	}
 	if c.Pert.active() && !c.Tcp {
-		l = append(l, "pert:reorder/dup")
+		l = append(l, "pert:reorder/dup", combo("gb", &c.S, "reorder|dup"))
 	} else {
-		l = append(l, "pert:none")
+		l = append(l, "pert:none", combo("gb", &c.S, "none"))
 	}
 	n := 0
 	for f := range feat {
